@@ -37,7 +37,10 @@ func gen(r *vc.Rand) []tcase {
 	// the near misses named in the property, verbatim
 	for _, s := range []string{"", "a", "/a//", "//", "/a//b", "/{a", "/a}", "/{a}}", "/{{a}}", "/{a={b}}", "/{}", "/{a.}", "/{.a}", "/{1a}", "/{a b}", "/{a=}", "/{a=/}",
 		"/a b", "/a\x00", "/\x00", "/a?b", "/a#b", "/%", "/%4", "/%zz", "/a:", "/:v", "/a/:v", "/a:v:w", "/*:v", "/**:v", "/a/**/b", "/**/**", "/{a=**}/b", "/{a=**}:v",
-		"/a/{b=c/*}:verb", "/{a=*}{b=*}", "/a{b}", "/{a}b", "/a:v/b", "/a/{b}:v:w", "/a:}x", "/a:%zz", "/a:v w", "/{a=b:c}", "/{a=b}:", "/***", "/*/**", "/a/"} {
+		"/a/{b=c/*}:verb", "/{a=*}{b=*}", "/a{b}", "/{a}b", "/a:v/b", "/a/{b}:v:w", "/a:}x", "/a:%zz", "/a:v w", "/{a=b:c}", "/{a=b}:", "/***", "/*/**", "/a/",
+		// a multi-segment variable is a multi segment: nothing may follow it
+		"/{name=**}/tail", "/v1/{name=objects/*/**}/{id}", "/{a=**}/{b=**}", "/{a=**}/**", "/{a=**}/*:verb", "/{a=x/**}/y", "/{a=x/**}/*", "/{a.b=**}/{c}",
+		"/v1/{name=**}", "/v1/{name=objects/*/**}", "/v1/{name=objects/*/**}:verb", "/{a=**}/", "/{a=*/**}/x:v"} {
 		out = append(out, tcase{1, s, vc.L{}})
 	}
 	return out
